@@ -46,7 +46,7 @@ IO_ON = {
 }
 
 
-def vary_tap_settings(cfg: Dict, rng: random.Random, mode_rng: Optional[random.Random] = None) -> None:
+def vary_tap_settings(cfg: Dict, rng: random.Random, mode_rng: Optional[random.Random] = None, force_fast: bool = False) -> None:
     """Generated kill-chain options for the TAP001 / TAP003 threat-actor agents of the shipped UC7 scenarios (the
     topology and everything else stay as shipped): schedule, repeat flags, per-stage probabilities, scan settings."""
     exhaust = rng.random() < 0.34  # TAP001: a scan campaign that runs out of networks and has to choose again
@@ -55,7 +55,7 @@ def vary_tap_settings(cfg: Dict, rng: random.Random, mode_rng: Optional[random.R
         if not t.startswith("tap"):
             continue
         s = a["agent_settings"]
-        if mode_rng is not None and t == "tap-001" and mode_rng.random() < 0.3:
+        if mode_rng is not None and t == "tap-001" and (mode_rng.random() < 0.3 or force_fast):
             # a short scan campaign (the target subnet first), so the later stages - command and control, payload - are
             # reached well inside a run and defender interference can land in them
             s.update({"frequency": mode_rng.choice([2, 3]), "variance": 0, "start_step": 1, "repeat_kill_chain": mode_rng.random() < 0.3, "repeat_kill_chain_stages": mode_rng.random() < 0.5})
@@ -101,7 +101,7 @@ def vary_tap_settings(cfg: Dict, rng: random.Random, mode_rng: Optional[random.R
             pay["continue_on_failed_exfil"] = rng.random() < 0.5
 
 
-def load_shipped(name: str, max_episode_length: Optional[int] = None, seed: Optional[int] = None, io: Optional[Dict] = None, tap_variation: Optional[int] = None) -> Dict:
+def load_shipped(name: str, max_episode_length: Optional[int] = None, seed: Optional[int] = None, io: Optional[Dict] = None, tap_variation: Optional[int] = None, tap_fast: bool = False) -> Dict:
     """Load a shipped scenario unmodified except io_settings, game.seed and (to keep runs short) max_episode_length."""
     import yaml
 
@@ -113,7 +113,7 @@ def load_shipped(name: str, max_episode_length: Optional[int] = None, seed: Opti
     if seed is not None:
         cfg["game"]["seed"] = seed
     if tap_variation is not None:
-        vary_tap_settings(cfg, random.Random(tap_variation), mode_rng=random.Random(tap_variation * 7919 + 13))
+        vary_tap_settings(cfg, random.Random(tap_variation), mode_rng=random.Random(tap_variation * 7919 + 13), force_fast=tap_fast)
     return cfg
 
 
